@@ -33,7 +33,7 @@ variable {fs0 : FsState} {s : DiskSlice} {N : Nat}
 
 /-- a slot write hit by the fault leaves the fixed root writable: size, well-formedness and geometry survive every run -/
 theorem root_faultKeeps (P : DirStream → Prop) : FaultKeeps (RootInv fs0 s N) P := by
-  intro d1 d2 st e r _ hf hinv hw hf2
+  intro d1 d2 st e r _ _ hf hinv hw hf2 _
   have hfa : d2.failAt = none := by
     rcases run_any _ d1 hf hw with h | ⟨h, _⟩
     · exact absurd h hf2
